@@ -348,6 +348,19 @@ func (e *env) modelBlock(units []*unit) *blockModel {
 				}
 			case m.kind == "vm":
 				r := runProg(txv, m.prog, m.execer, m.sender, m.sameTime, execAddr)
+				if i > 0 {
+					for _, k := range r.wrote {
+						for _, k0 := range gs {
+							if k == k0 {
+								if !r.ok && r.why == "unreported-key" {
+									e.ctx.Probe("group_member_rewrote_earlier_key_unreported")
+								} else if r.ok {
+									e.ctx.Probe("group_member_rewrote_earlier_key")
+								}
+							}
+						}
+					}
+				}
 				gs = append(gs, r.wrote...)
 				gl = append(gl, r.lwrote...)
 				if !r.ok {
